@@ -46,6 +46,15 @@ TBudget == /\ Is("Budget") /\ Ev.inf
 \* whole-value observations: a terminal operation (ToSeq, Count, Fold, ...) returned this sequence
 TWhole == /\ Is("Whole") /\ Adv /\ UNCHANGED <<ivars, other, pulled0, lazyCheck>>
           /\ IF unord THEN IsPerm(Ev.out, rem) ELSE Ev.out = rem
+\* the Fold family (Fold, FoldLeft, FoldRight, FoldMap, FoldTry, FoldOption, FoldError of iterator / list / seq): the step
+\* function fails on the first element equal to stop; the fold must visit exactly the elements before it, in order, report the
+\* failure iff there is such an element, and return (a failing FoldTry / FoldOption has no accumulator: partial)
+FirstStop(s, v) == IF \E i \in DOMAIN s : s[i] = v THEN CHOOSE i \in DOMAIN s : s[i] = v /\ \A j \in 1..(i - 1) : s[j] # v ELSE 0
+TFoldM == /\ Is("FoldM") /\ Adv /\ UNCHANGED <<ivars, other, pulled0, lazyCheck>>
+          /\ \/ unord
+             \/ LET k == FirstStop(rem, Ev.stop)
+                IN /\ Ev.failed = (k # 0)
+                   /\ (~Ev.partial => Ev.out = (IF k = 0 THEN rem ELSE SubSeq(rem, 1, k - 1)))
 TCount == Is("Count") /\ Ev.n = Len(rem) /\ Adv /\ UNCHANGED <<ivars, other, pulled0, lazyCheck>>
 \* a lazy List walked cell by cell in any order of Head / IsEmpty / Tail: cell pos holds element pos + 1 of the output
 TList  == /\ Is("List") /\ Adv /\ UNCHANGED <<ivars, other, pulled0, lazyCheck>>
@@ -55,7 +64,7 @@ TList  == /\ Is("List") /\ Adv /\ UNCHANGED <<ivars, other, pulled0, lazyCheck>>
 TGen   == Is("GenCalls") /\ Ev.max <= 1 /\ Ev.pulled <= Ev.srclen /\ Adv /\ UNCHANGED <<ivars, other, pulled0, lazyCheck>>
 TEnd   == Is("End") /\ Adv /\ UNCHANGED <<ivars, other, pulled0, lazyCheck>>
 
-TNext0 == TReset \/ THas \/ TNext \/ THasR \/ TNextR \/ TBudget \/ TWhole \/ TCount \/ TList \/ TGen \/ TEnd
+TNext0 == TReset \/ THas \/ TNext \/ THasR \/ TNextR \/ TBudget \/ TWhole \/ TFoldM \/ TCount \/ TList \/ TGen \/ TEnd
 TSpec == TInit /\ [][TNext0]_tvars
 
 HighWater == TLCSet(1, IF TLCGet(1) < l THEN l ELSE TLCGet(1))
